@@ -15,7 +15,9 @@
 From Murex Require Export Base.Outcome Base.Bytes Model.Decimal.
 Open Scope Z_scope.
 
-Inductive elem := EStr (s : bytes) | ERange (lo hi : bytes).   (* comma separated, inside [ ] *)
+(* comma separated, inside [ ]. EBad: a node with `..` that does not split into
+   exactly two parts ("1..2..3"): rangeToArrayString rejects it *)
+Inductive elem := EStr (s : bytes) | ERange (lo hi : bytes) | EBad (d : bytes).
 Inductive seg := SLit (s : bytes) | SBlock (es : list elem).
 Definition group := list seg.
 Definition expr := list group.                                    (* top level commas *)
@@ -55,6 +57,7 @@ Fixpoint block_values (es : list elem) : Outcome (list bytes) :=
   | EStr s :: r => obind (block_values r) (fun vs => Ok (s :: vs))
   | ERange lo hi :: r =>
       obind (int_range lo hi) (fun a => obind (block_values r) (fun vs => Ok (a ++ vs)))
+  | EBad _ :: _ => Err E_RANGE_KIND
   end.
 
 (* template with the blocks evaluated *)
